@@ -1,7 +1,7 @@
 //@ crate: grin_core
 //@ target: core/src/ser.rs
 //@ profile: release-arith
-//@ assume: Kani checks arithmetic overflow with debug semantics and stops a path at a wrap; wraps are recorded (evidence: arithmetic_wraps_not_explored_beyond) and behaviour after a wrap is NOT explored
+//@ assume: Kani checks arithmetic overflow with debug semantics and stops a path at a wrap; a wrap at a site listed under wraps_known is recorded (evidence: arithmetic_wraps), any other wrap is replayed natively with wrapping arithmetic -- a panic there is a violation, otherwise the harness is undecided
 //@ assume: KReader models BinReader over a byte slice; BinReader itself is exercised over &[u8] in binreader_fixed_bytes
 //@ harness rangeproof_read_nopanic kind=complete tier=quick fns=RangeProof::read,Reader::read_fixed_bytes bound=-
 //@ harness commit_sig_read_nopanic kind=complete tier=quick fns=Commitment::read,Signature::read bound=-
